@@ -1,8 +1,10 @@
 package tscommon
 
 import (
+	"encoding/json"
 	"fmt"
 	"sort"
+	"strconv"
 	"strings"
 
 	"google.golang.org/protobuf/compiler/protogen"
@@ -337,7 +339,7 @@ func GenerateEnumType(p Printer, enum *protogen.Enum) {
 		// Check for custom enum_value annotation
 		customValue := annotations.GetEnumValueMapping(v)
 		if customValue != "" {
-			parts = append(parts, fmt.Sprintf(`"%s"`, customValue))
+			parts = append(parts, tsStringLiteral(customValue))
 		} else {
 			parts = append(parts, fmt.Sprintf(`"%s"`, string(v.Desc.Name())))
 		}
@@ -345,6 +347,17 @@ func GenerateEnumType(p Printer, enum *protogen.Enum) {
 
 	p("export type %s = %s;", name, strings.Join(parts, " | "))
 	p("")
+}
+
+// tsStringLiteral returns s as a TypeScript string literal. Custom enum values and discriminator
+// values are chosen by the user and may contain quotes or backslashes; a JSON string is a valid
+// TypeScript string literal.
+func tsStringLiteral(s string) string {
+	b, err := json.Marshal(s)
+	if err != nil {
+		return strconv.Quote(s)
+	}
+	return string(b)
 }
 
 // GenerateInterface writes a TypeScript interface for a protobuf message.
@@ -418,7 +431,7 @@ func GenerateOneofDiscriminatedUnionType(p Printer, msgName string, info *annota
 		switch {
 		case info.Flatten && variant.IsMessage:
 			// Flattened: { discriminator: "value", ...variant fields }
-			branch = fmt.Sprintf("{ %s: \"%s\"", info.Discriminator, variant.DiscriminatorVal)
+			branch = fmt.Sprintf("{ %s: %s", info.Discriminator, tsStringLiteral(variant.DiscriminatorVal))
 			var sb strings.Builder
 			for _, childField := range variant.Field.Message.Fields {
 				jsonName := childField.Desc.JSONName()
@@ -432,9 +445,9 @@ func GenerateOneofDiscriminatedUnionType(p Printer, msgName string, info *annota
 			fieldJSONName := variant.Field.Desc.JSONName()
 			msgType := string(variant.Field.Message.Desc.Name())
 			branch = fmt.Sprintf(
-				"{ %s: \"%s\"; %s?: %s }",
+				"{ %s: %s; %s?: %s }",
 				info.Discriminator,
-				variant.DiscriminatorVal,
+				tsStringLiteral(variant.DiscriminatorVal),
 				fieldJSONName,
 				msgType,
 			)
@@ -443,9 +456,9 @@ func GenerateOneofDiscriminatedUnionType(p Printer, msgName string, info *annota
 			fieldJSONName := variant.Field.Desc.JSONName()
 			tsType := TSScalarTypeForField(variant.Field)
 			branch = fmt.Sprintf(
-				"{ %s: \"%s\"; %s?: %s }",
+				"{ %s: %s; %s?: %s }",
 				info.Discriminator,
-				variant.DiscriminatorVal,
+				tsStringLiteral(variant.DiscriminatorVal),
 				fieldJSONName,
 				tsType,
 			)
